@@ -107,7 +107,16 @@ namespace vu
    using r_state_d = I::state< St2, P1 >;   // default-constructed state
    using r_action = I::action< nothing, P1 >;
    using r_action2 = I::action< nothing, P1, P2 >;
+   // a second control, so that "switched to the new control" and "still the old one" are different things
+   // (with a match of its own, declared only: entering a rule through this control is then a different function from entering it through normal)
+   template< typename R > struct other_ctl : normal< R >
+   {
+      template< apply_mode A, rewind_mode M, template< typename... > class Action, template< typename... > class Control, typename ParseInput, typename... States >
+      [[nodiscard]] static bool match( ParseInput& in, States&&... st );
+   };
    using r_control = I::control< normal, P1 >;
+   using r_control3 = I::control< other_ctl, P1 >;
+   using r_control4 = I::control< other_ctl, P1, P2 >;
    using r_control2 = I::control< normal, P1, P2 >;
    using r_enable = I::enable< P1 >;
    using r_enable2 = I::enable< P1, P2 >;
@@ -203,6 +212,7 @@ namespace vu
    struct R_cas : P1 {};    // change_action_and_state
    struct R_cass : P1 {};   // change_action_and_states
    struct R_cc : P1 {};     // change_control
+   struct R_cc2 : P1 {};    // change_control to a control other than the current one
    struct R_da : P1 {};     // disable_action
    struct R_ea : P1 {};     // enable_action
    struct R_di : P1 {};     // discard_input
@@ -228,6 +238,7 @@ namespace vu
    template<> struct act< R_cas > : change_action_and_state< act2, St > {};
    template<> struct act< R_cass > : change_action_and_states< act2, St, St2 > { template< typename I, typename... S > static void success( const I&, S&&... ); };
    template<> struct act< R_cc > : change_control< normal > {};
+   template<> struct act< R_cc2 > : change_control< other_ctl > {};
    template<> struct act< R_da > : disable_action {};
    template<> struct act< R_ea > : enable_action {};
    template<> struct act< R_di > : discard_input {};
@@ -290,7 +301,7 @@ namespace vu
       U4( r_must1 ) U4( r_must2 ) U4( r_ifmust_f ) U4( r_ifmust_f3 ) U4( r_ifmust_t ) U4( r_ifmust_t3 ) U4( r_ifmustelse )
       U4( r_raise ) U4( r_starmust ) U4( r_list ) U4( r_listmust ) U4( r_listtail ) U4( r_listtailpad )
       U4( r_minus ) U4( r_pad ) U4( r_padopt )
-      U4( r_state ) U4( r_state2 ) U4S( r_state ) U4( r_state_d ) U4S( r_state_d ) U4( r_action ) U4( r_action2 ) U4( r_control ) U4( r_control2 )
+      U4( r_state ) U4( r_state2 ) U4S( r_state ) U4( r_state_d ) U4S( r_state_d ) U4( r_action ) U4( r_action2 ) U4( r_control ) U4( r_control2 ) U4( r_control3 ) U4( r_control4 )
       U4( r_enable ) U4( r_enable2 ) U4( r_disable ) U4( r_disable2 )
       U4( r_ifthen ) U4( r_ifthen2 ) U4( r_ifthen3 ) U4( r_sepseq )
       U4( r_apply ) U4( r_apply0 ) U4( r_ifapply ) U4( r_ifapply0 ) U4S( r_apply ) U4S( r_apply0 ) U4S( r_ifapply )
@@ -350,6 +361,8 @@ namespace vu
       r = use4< R_cass, act >( in ) && r;
       r = use4< R_cass, act >( in, st ) && r;
       r = use4< R_cc, act >( in ) && r;
+      r = use4< R_cc2, act >( in ) && r;
+      r = use4< R_cc2, act >( in, st ) && r;
       r = use4< R_da, act >( in ) && r;
       r = use4< R_ea, act >( in ) && r;
       r = use4< R_di, act >( bin ) && r;
